@@ -15,6 +15,8 @@ Static clauses decided (necessary conditions of C16): the ordering skeleton of a
          the chain (test `<receiver> in dependent_objects`, evaluated before the object is appended); it is not raised
          for principals that are merely referenced (already saved objects stay on the chain and are legitimately
          reachable twice through a diamond).
+ ABORT   "when the references form a cycle ... the session's writes are not committed": the module-level commit() flushes every
+         cache before any database is committed and rolls back on a flush error (rules shared with C17-ABORT).
  DELQ    the queue order is the statement order, and Pony cascades depth-first (dependents are marked before the object they
          depend on): an object that becomes marked_to_delete is put at the END of the save queue (objects_to_save.append on
          every path that sets the status, with _save_pos_ = the new index), and when it already held a slot as a pending UPDATE
@@ -118,6 +120,9 @@ def run(ctx):
     ctx.ob('C16-CYCLE.raised-exactly-for-the-object-being-saved', sp, thr[0].ast if thr else sp.node, ok, detail,
            expected='`if %s: throw(UnresolvableCyclicDependency, ...)` before %s.append(%s)' % (want, chain, recv))
 
+    # ---------------------------------------------------------------- ABORT (shared with C17)
+    from . import C17
+    C17.global_commit_rules(ctx, P='C16-ABORT')
     # ---------------------------------------------------------------- DELQ
     dl = repo.fn(CORE, 'Entity._delete_')
     g = cg.cfg(dl); recv = dl.recv
